@@ -17,8 +17,9 @@ package props
 //   truncblock=1   cache files truncated exactly at a block boundary of the store format
 //                  (store.Get then returns a short literal without error: C09's finding)
 //   subpart1=1     part paths that go through "part 1" of a non-multipart (embedded)
-//                  message (see c13_expect.go resolve)
-//   lf=1           messages with bare LF line endings
+//                  message (c13_expect.go, c13Ref.sub1): gluon answers the whole embedded message
+// Shape classes without a finding so far: lf=1 (bare LF line endings), odd, binary,
+// nobody, prefixb, big, wild (requests outside the judged domain).
 //   emptyfield=1   header fields with an empty value ("X-Empty:" CRLF): HEADER.FIELDS[.NOT]
 //                  returns only the field name, without ":" CRLF
 
@@ -141,19 +142,19 @@ func (C13) Generate(r *core.Rand, tier string, idx int) *core.Scenario {
 
 // c13Msg is what the harness knows about one message.
 type c13Msg struct {
-	g        *gen.Message
-	id       string // internal ID = name of the cache file = value of the ID header
-	file     string // path of the cache file
-	lit      []byte // expected literal: ID header line + the bytes handed in
-	shift    int    // length of the ID header line
-	via      string
-	remote   imap.MessageID
-	expunged bool // some session removed it from INBOX
-	loAfter  int  // sessions that logged out after it was expunged
-	deleted  bool // the remote reported it deleted (gluon may drop row and file once nobody holds it)
-	faulted  bool // its cache file was damaged and not yet reloaded
+	g          *gen.Message
+	id         string // internal ID = name of the cache file = value of the ID header
+	file       string // path of the cache file
+	lit        []byte // expected literal: ID header line + the bytes handed in
+	shift      int    // length of the ID header line
+	via        string
+	remote     imap.MessageID
+	expunged   bool // some session removed it from INBOX
+	loAfter    int  // sessions that logged out after it was expunged
+	deleted    bool // the remote reported it deleted (gluon may drop row and file once nobody holds it)
+	faulted    bool // its cache file was damaged and not yet reloaded
 	truncBlock bool // its cache file was cut at a block boundary of the store format (knob truncblock)
-	inBox1   bool
+	inBox1     bool
 }
 
 type c13Sess struct {
@@ -414,11 +415,10 @@ func (x *c13Run) settle() {
 
 func (x *c13Run) sync(i int) {
 	cs := x.ss[i]
-	if cs.s.ReleaseUpdates(-1) > 0 || true {
-		r := cs.s.Cmd("NOOP")
-		x.stream(i, r, "NOOP")
-		x.learn(i)
-	}
+	cs.s.ReleaseUpdates(-1)
+	r := cs.s.Cmd("NOOP")
+	x.stream(i, r, "NOOP")
+	x.learn(i)
 }
 
 func (x *c13Run) msgAt(i int, seq int) *c13Msg {
